@@ -246,6 +246,14 @@ impl<'a> Cursor<'a> {
                     '\\' => {
                         state = State::StringLiteralBackslash;
                     }
+                    curr if is_line_terminator(curr) => {
+                        self.add_err(Error::with_loc(
+                            "unexpected line terminator",
+                            "".to_string(),
+                            0,
+                        ));
+                        state = State::StringLiteral;
+                    }
                     _ => {
                         state = State::StringLiteral;
 
